@@ -12,7 +12,7 @@
    (both sides then say EOutOfFuel).  A set whose block nesting is cyclic through the chain
    (D13) is accepted by finalize and diverges: Example d13_out_of_fuel. *)
 From Coq Require Import List NArith Bool.
-From TeraV Require Import Model.Lineage Spec.Inherit Proofs.LineageRender Proofs.LineageProofs Proofs.LineageMain.
+From TeraV Require Import Model.Lineage Spec.Inherit Proofs.LineageRender Proofs.LineageProofs Proofs.LineageMain Proofs.LineageNoNest.
 Import ListNotations.
 
 (* block_lineage(T)(b) = most-derived definition, then - while the previous one calls super() -
@@ -81,23 +81,35 @@ Theorem render_block_spec : forall ord ts fr fuel T anc b,
   end.
 Proof. intros. eapply render_block_spec_l; eauto. Qed.
 
-(* render_block(T, b) = the text block b wrote during the full render of T (its last
-   activation; "" if it was never reached), with the same error if the render fails.
-   PARTIAL: carries the side condition that b is not activated inside its own activation.
-   That cannot happen in a finite render (an activation of b is independent of its context,
-   so it would contain itself); this argument is not formalised.  render_block_spec above is
-   unconditional. *)
-Theorem render_block_is_slice_of_render_partial : forall ord ts fr fuel T anc b tr,
+(* a finite render never activates a block inside its own activation (an activation does not
+   depend on its context, so it would contain itself) *)
+Theorem no_block_inside_itself : forall fuel ch b tr,
+  spec_render fuel ch = Ok tr -> self_nested b tr = false.
+Proof. intros. eapply no_self_nesting; eauto. Qed.
+
+(* render_block(T, b) = exactly the text block b writes during the full render of T: the text
+   under its TBlock node (all its activations write the same text; the buffer keeps the last
+   one), "" if the render never reaches it; the same error if the render fails; "not found" iff
+   nobody in the chain defines b. *)
+Theorem render_block_is_slice_of_render : forall ord ts fr fuel T anc b,
   orders_ok ord -> NoDup (tnames ts) -> register ord ts = Ok fr -> is_chain ts (T :: anc) ->
-  resolve (T :: anc) b <> None ->
-  spec_render fuel (T :: anc) = Ok tr -> self_nested b tr = false ->
-  render_model fuel fr (t_name T) = Ok (flat tr) /\
-  render_block_model fuel fr (t_name T) b = Ok (last (block_writes b tr) []).
+  match resolve (T :: anc) b with
+  | None => render_block_model fuel fr (t_name T) b = Err EBlockNotFound
+  | Some _ =>
+      match spec_render fuel (T :: anc) with
+      | Ok tr => render_model fuel fr (t_name T) = Ok (flat tr) /\
+                 render_block_model fuel fr (t_name T) b = Ok (last (block_writes b tr) [])
+      | Err e => render_model fuel fr (t_name T) = Err e /\
+                 render_block_model fuel fr (t_name T) b = Err e
+      end
+  end.
 Proof.
-  intros ord ts fr fuel T anc b tr Ho Hnd Hr Hc Hres Hs Hn. split.
-  - rewrite (render_chain_spec_l ord ts fr Ho Hnd Hr fuel T anc Hc), Hs. reflexivity.
-  - rewrite (render_block_spec_l ord ts fr Ho Hnd Hr fuel T anc b Hc), Hs.
-    destruct (resolve (T :: anc) b); [|congruence]. cbn. now rewrite lastw_last.
+  intros ord ts fr fuel T anc b Ho Hnd Hr Hc.
+  rewrite (render_chain_spec_l ord ts fr Ho Hnd Hr fuel T anc Hc).
+  rewrite (render_block_spec_l ord ts fr Ho Hnd Hr fuel T anc b Hc).
+  destruct (resolve (T :: anc) b); auto.
+  destruct (spec_render fuel (T :: anc)) as [tr|e] eqn:E; cbn [rmap]; auto.
+  split; auto. rewrite lastw_last; auto. eapply no_self_nesting; eauto.
 Qed.
 
 (* ------------------------------------------------------------------ D8: the pinned code *)
@@ -129,7 +141,8 @@ Print Assumptions child_blocks_must_exist.
 Print Assumptions child_blocks_must_exist_rejects.
 Print Assumptions nested_new_blocks_allowed.
 Print Assumptions render_block_spec.
-Print Assumptions render_block_is_slice_of_render_partial.
+Print Assumptions no_block_inside_itself.
+Print Assumptions render_block_is_slice_of_render.
 Print Assumptions render_block_is_slice_of_render_pinned_refuted.
 
 (* ------------------------------------------------------------------ non-vacuity *)
